@@ -422,7 +422,7 @@ class SigmaRuleBase:
             "title": self.title,
         }
         # Convert to string where possible
-        for field in ("id", "status", "level", "author", "description", "name"):
+        for field in ("id", "status", "level", "author", "description", "name", "license"):
             if (s := self.__getattribute__(field)) is not None:
                 d[field] = str(s)
 
@@ -438,6 +438,11 @@ class SigmaRuleBase:
             d["date"] = self.date.isoformat()
         if self.modified is not None:
             d["modified"] = self.modified.isoformat()
+        if self.related is not None and len(self.related.related) > 0:
+            d["related"] = [
+                {"id": str(related.id), "type": str(related.type)}
+                for related in self.related.related
+            ]
 
         # custom attributes
         d.update(self.custom_attributes)
